@@ -284,7 +284,8 @@ Definition secret_type (c : cs_case) : option Z :=
 Definition must_decrypt (c : cs_case) : bool :=
   x_honest_enc c && x_aesok c &&
   (* within the configured size limit, and no X-Request-Uri pointing elsewhere *)
-  ((x_limit c <=? 0) || (r_clen (x_req c) <=? x_limit c)) &&
+  ((x_limit c <=? 0) ||
+   ((if r_clen (x_req c) <? 0 then len (r_body (x_req c)) else r_clen (x_req c)) <=? x_limit c)) &&
   match r_xuri (x_req c) with
   | Some (p, q) => (p =? r_path (x_req c)) && (q =? r_query (x_req c))
   | None => true
@@ -485,7 +486,42 @@ Definition prop_srv1 (c : srv_case) (x : sreq * nat * srv_obs) : bool :=
 
 Definition prop_srv (c : srv_case) : bool := forallb (prop_srv1 c) (v_reqs c).
 
+(* ---- payload sizes of the cryption round trip ------------------------------------- *)
+
+(* The payloads are (seed, length) pairs expanded by the executor; AES and base64 act on them as
+   whole-payload oracles, so what the model predicts is what the round-trip theorems say for EVERY
+   payload (ProofsCheck.big_model_is_crypt_handler): within the size limit the handler runs, reads
+   the plaintext, and the response decrypts — by an independent client — to what was written. *)
+Record big_case := mkBig
+  { g_cs : bool;                 (* behind strict content security (signed, type 1) instead of the stand-alone handler *)
+    g_chunked : bool;            (* unknown length *)
+    g_limit : Z; g_reqlen : Z; g_resplen : Z;
+    g_wirelen : Z;               (* observed: length of the base64 text sent *)
+    g_ran : bool; g_status : Z;
+    g_seenok : bool;             (* the handler read exactly the plaintext *)
+    g_respok : bool;             (* client-side decode + decrypt of the response = what the handler wrote *)
+    g_panic : bool }.
+
+(* pkcs5Padding, base64.StdEncoding: lengths *)
+Definition padded_len (n : Z) : Z := (n / 16 + 1) * 16.
+Definition b64_len (n : Z) : Z := 4 * ((n + 2) / 3).
+Definition big_wire_len (c : big_case) : Z := b64_len (padded_len (g_reqlen c)).
+Definition big_exceeds (limit wirelen : Z) : bool := (0 <? limit) && (limit <? wirelen).
+(* does the body get decrypted at all: always with a length; without one only with the repair *)
+Definition big_decrypts (c : big_case) : bool := negb (g_chunked c) || unknown_length_fix.
+
+Definition agrees_big (c : big_case) : bool :=
+  (g_wirelen c =? big_wire_len c) && negb (g_panic c) &&
+  if big_exceeds (g_limit c) (g_wirelen c) then negb (g_ran c) && (g_status c =? 400)
+  else g_ran c && (g_status c =? 200) && Bool.eqb (g_seenok c) (big_decrypts c) && g_respok c.
+
+Definition prop_big (c : big_case) : bool :=
+  negb (g_panic c) &&
+  if big_exceeds (g_limit c) (g_wirelen c) || negb (big_decrypts c) then true
+  else g_ran c && g_seenok c && g_respok c.
+
 Inductive case :=
+| CBig (c : big_case)
 | CJwt (c : jcfg) (t : mactab) (reqs : list (Z * cred)) (obs : list jobs)
 | CTp (rs : bool) (t : mactab) (calls : list tp_call) (obs : list Z)
 | CSrv (c : srv_case)
@@ -501,6 +537,7 @@ Definition agrees (c : case) : bool :=
     forallb (fun cl => tab_complete t (fst (fst cl)) (snd cl)) calls &&
     list_eqb Z.eqb (run_parser (tab_mac t) rs [] calls) obs
   | CSrv x => agrees_srv x
+  | CBig x => agrees_big x
   | CCs x => agrees_cs x
   | CHdr raw obs => agrees_hdr raw obs
   end.
@@ -510,6 +547,7 @@ Definition prop_ok (c : case) : bool :=
   | CJwt jc t reqs obs => forall2b (jwt_prop1 t jc) reqs obs
   | CTp _ t calls obs => forall2b (tp_prop1 t) calls obs
   | CSrv x => prop_srv x
+  | CBig x => prop_big x
   | CCs x => prop_cs x
   | CHdr raw obs => prop_hdr raw obs
   end.
@@ -518,6 +556,7 @@ Inductive mobs :=
 | MJwt (l : list (jresult * Z))
 | MTp (l : list Z)
 | MSrv (r : bool * list sout)
+| MBig (wirelen : Z) (exceeds decrypts : bool)
 | MCs (h : hout) (code : Z) (codec : res * res * option res)
 | MHdr (l : list (list Z * list Z)).
 
@@ -526,6 +565,7 @@ Definition model_obs (c : case) : mobs :=
   | CJwt jc t reqs _ => MJwt (run_jwt_err (tab_mac t) [] jc reqs)
   | CTp rs t calls _ => MTp (run_parser (tab_mac t) rs [] calls)
   | CSrv x => MSrv (model_srv x)
+  | CBig x => MBig (big_wire_len x) (big_exceeds (g_limit x) (big_wire_len x)) (big_decrypts x)
   | CCs x => MCs (model_cs x) (model_code x) (model_codec x)
   | CHdr raw _ => MHdr (parse_header raw)
   end.
